@@ -285,7 +285,7 @@ def gen_script(rng, kind):
     if kind == "random":
         for _ in range(rng.randint(4, 40)): g.random_event(maxreq=6)
         while g.delayed and rng.random() < 0.7: g.release_delayed()
-    elif kind == "nomc":        # unicast only, heavier on errors (keeps clear of the multicast-key defect)
+    elif kind == "nomc":        # unicast only, heavier on errors
         for _ in range(rng.randint(4, 40)):
             if rng.random() < 0.25 and len(g.reqs) < 6: g.req(r=rng.choice([0, 0, 1, 2]))
             elif rng.random() < 0.15: g.ev(["err", rng.choice([0, 1, 2]), rng.choice(ERRKINDS)])
@@ -328,9 +328,10 @@ class C02(fw.Property):
                   "matched ones exactly one empty ACK; every request completes at most once and only with a library error class; a completed non-observe request's key is gone; "
                   "transport errors / shutdown / RST / retransmission give-up fail the affected outstanding requests; tokens of outstanding requests are pairwise different (< 2^64 requests). "
                   "The model is tied to the code by comparing complete per-event output traces and final tables with the real objects.")
-    level_note = ("Liveness is conditional (section 7 of the design): NON requests and empty-ACKed CON requests without response stay pending by design. The transport-error theorem carries the "
-                  "hypothesis 'no multicast request outstanding'; without it the code raises AttributeError (open finding, refuted-witness proved). Observation freshness uses a frozen time.time() "
-                  "(the OBSERVATION_RESET_TIME clause is C07's). Server side / request codes, real sockets and real-time jitter are not modelled.")
+    level_note = ("Liveness is conditional (section 7 of the design): NON requests and empty-ACKed CON requests without response stay pending by design. The transport-error / give-up theorems are "
+                  "unconditional since /repo commit a3add01 (udp6 address == None is False; before, dispatch_error raised AttributeError while a multicast request was pending - the oracle keeps the "
+                  "signatures C02:...:mc-pending so a regression is a VIOLATION). Observation freshness uses a frozen time.time() (the OBSERVATION_RESET_TIME clause is C07's). "
+                  "Server side / request codes, real sockets and real-time jitter are not modelled.")
     rule = ("event scripts (4-45 events) against a fresh Context: up to 6 concurrent requests (CON/NON/default, observe or not) to 3 unicast remotes and multicast groups; responses aimed at "
             "outstanding/retired requests as piggy-backed ACK / separate CON / NON / ACK with wrong mid, genuine or forged (right token+wrong remote, mutated/guessed/retired token), duplicated, "
             "delayed and reordered, received on unicast or multicast addresses; empty ACK/RST/ping with right or wrong mid/remote; codes that do not fit; timer firings and time advances; "
